@@ -96,6 +96,9 @@ type rtCtr struct {
 	Dirty map[string]bool
 	// configuration in effect when the plugin last (re)allocated this container
 	AllocCfg *vhConfig
+	// every configuration accepted since: a reconfiguration may or may not
+	// have re-allocated the container under it
+	LaterCfgs []*vhConfig
 }
 
 type rtPod struct {
@@ -392,6 +395,8 @@ type executor struct {
 	// changes stay undelivered until the next successful reply that can carry updates
 	failedPending       bool
 	failedPendingBefore bool // value of failedPending when the current request started
+	// containers that had an undelivered change when a request failed
+	tainted map[string]bool
 	// a policy event changed containers; no NRI reply has had a chance to carry the change yet
 	eventPending      bool
 	inRejectedReconfig bool
@@ -489,11 +494,17 @@ func (e *executor) exec(op hcOp) *stepResult {
 		if r.Err != nil {
 			c.State = stCreateFailed
 			e.failedPending = true
+			e.taintPending()
 			r.Desc = fmt.Sprintf("%s(%s)", r.Handler, r.Target)
 			r.collect(m, "")
 			if op.Undo {
 				// containerd undoes a failed creation with stop + remove events
-				_, _ = p.StopContainer(bg, m.nriPod(pod), m.nriCtr(c))
+				c.State = stStopped
+				ups, serr := p.StopContainer(bg, m.nriPod(pod), m.nriCtr(c))
+				r.collectReply(m, "", nil, ups, "update")
+				if serr == nil {
+					e.failedPending = false // this reply could carry the left-over updates
+				}
 				_ = p.RemoveContainer(bg, m.nriPod(pod), m.nriCtr(c))
 				c.State = stRemoved
 			}
@@ -584,7 +595,12 @@ func (e *executor) exec(op hcOp) *stepResult {
 		}
 		if c.State == stCreateFailed {
 			// the runtime's undo of a failed creation
-			_, _ = p.StopContainer(bg, m.nriPod(m.pods[c.Pod]), m.nriCtr(c))
+			ups, serr := p.StopContainer(bg, m.nriPod(m.pods[c.Pod]), m.nriCtr(c))
+			c.State = stStopped
+			r.collectReply(m, "", nil, ups, "update")
+			if serr == nil {
+				e.failedPending = false
+			}
 		}
 		c.State = stRemoved
 		r.Handler, r.Target = "RemoveContainer", c.ID
@@ -642,6 +658,9 @@ func (e *executor) exec(op hcOp) *stepResult {
 		if r.CfgError == nil {
 			e.cfg = op.Cfg
 			e.reconfigured = true
+			for _, c := range m.live() {
+				c.LaterCfgs = append(c.LaterCfgs, op.Cfg)
+			}
 		} else {
 			e.rejectedReconfigs++
 		}
@@ -663,8 +682,9 @@ func (e *executor) exec(op hcOp) *stepResult {
 	r.Desc = fmt.Sprintf("%s(%s)", r.Handler, r.Target)
 	switch r.Handler {
 	case "CreateContainer", "UpdateContainer", "StopContainer", "Synchronize", "updateConfig":
-		if r.Err != nil {
-			e.failedPending = true
+		if r.Err != nil || r.CfgError != nil {
+			e.failedPending = true // (a rejected configuration update is a failed request, too)
+			e.taintPending()
 		} else if r.CfgError == nil {
 			e.failedPending = false
 			e.eventPending = false
@@ -687,4 +707,13 @@ func (e *executor) runtimeLists() ([]*api.PodSandbox, []*api.Container) {
 		ctrs = append(ctrs, e.m.nriCtr(c))
 	}
 	return pods, ctrs
+}
+
+func (e *executor) taintPending() {
+	if e.tainted == nil {
+		e.tainted = map[string]bool{}
+	}
+	for _, pc := range e.h.m.cache.GetPendingContainers() {
+		e.tainted[pc.GetID()] = true
+	}
 }
